@@ -38,10 +38,21 @@ Results.
   * `C04_covered_not_requeued`, `C04_requeue_effect`: a covered message is never re-queued; a
     re-queued delivery was not covered and makes the message covered, or is a prune leave that
     erases the known member.
+  * User events and queries (section "user events and queries" at the end; models
+    `SerfModel.EventBuf` / `SerfModel.QueryHandle`, theorems of C05 / C08): `handleUserEvent`
+    returns true — NotifyMsg re-queues — exactly when the event is delivered, so
+    `C04_user_event_at_most_once_partial` (no (time, name, payload) is re-queued twice, for every
+    buffer size, start state and history of gossip and push/pull replays without the time 2^64−1)
+    is a corollary of C05; `C04_query_at_most_once_partial` is C08's re-broadcast half;
+    `C04_pushpull_events_never_requeue`: the event replay of MergeRemoteState ignores
+    `handleUserEvent`'s result.  The full statements without `NoWrap` are false
+    (`C04_user_event_at_most_once_counterexample`: C19's clock wrap, recorded under C05/C19).
 The proof is by the potential `rank` (0 covered / 2 uncovered prune about a known member / 1
 otherwise): see `SerfProofs.Lemmas.NodeGossip`.
 -/
 import SerfProofs.Lemmas.NodeGossip
+import SerfProofs.Props.C05
+import SerfProofs.Props.C08
 namespace SerfProofs.C04
 open SerfModel SerfModel.Node SerfProofs.NodeGossip
 
@@ -185,5 +196,102 @@ example : covered (step demoNode (.joinMsg "a" 3 0)).1 (.join "a" 3) = true ∧
     (step (step demoNode (.joinMsg "a" 3 0)).1 (.joinMsg "a" 3 1)).2.rebroadcast = false := by decide
 example : (step demoNode (.joinMsg "a" 3 0)).2.rebroadcast = true ∧ covered demoNode (.join "a" 3) = false := by
   decide
+
+/-! ### user events and queries
+
+`delegate.NotifyMsg` re-queues a messageUserEvent iff `handleUserEvent` returned true, and that
+function returns true only on the path that appends the event to its slot and hands it to the
+application (`Res.delivered` in `SerfModel.EventBuf.handle`); every other path (below the
+cut-off, too old, duplicate) returns false.  `delegate.MergeRemoteState` calls
+`handleUserEvent` for every event of the remote buffer image and ignores the result. -/
+
+section Events
+open SerfModel.Atomic SerfModel.EventBuf SerfProofs.EventBuf
+variable {α : Type} [DecidableEq α]
+
+/-- The user events re-queued by NotifyMsg along a history of one node's event buffer: a gossip
+delivery is re-queued iff it was delivered; a push/pull replay re-queues nothing. -/
+def eventRequeues (b : Buf α) : List (In α) → List (W × α)
+  | [] => []
+  | .gossip lt x :: rest =>
+    (if (handle b lt x).2 = .delivered then [(lt, x)] else []) ++ eventRequeues (handle b lt x).1 rest
+  | .pushPull e raise image :: rest => eventRequeues (stepIn b (.pushPull e raise image)).1 rest
+
+theorem eventRequeues_sublist (ins : List (In α)) : ∀ b : Buf α,
+    (eventRequeues b ins).Sublist (deliveries b ins) := by
+  induction ins with
+  | nil => intro b; simp [eventRequeues, deliveries, SerfModel.EventBuf.run]
+  | cons i rest ih =>
+    intro b
+    cases i with
+    | gossip lt x =>
+      have hstep : stepIn b (.gossip lt x) =
+          ((handle b lt x).1, if (handle b lt x).2 = .delivered then [(lt, x)] else []) := by
+        simp [stepIn, handleAll]
+      have := ih (handle b lt x).1
+      simp only [eventRequeues, deliveries, SerfModel.EventBuf.run, hstep] at this ⊢
+      exact List.Sublist.append (List.Sublist.refl _) this
+    | pushPull e raise image =>
+      have := ih (stepIn b (.pushPull e raise image)).1
+      simp only [eventRequeues, deliveries, SerfModel.EventBuf.run] at this ⊢
+      exact List.Sublist.trans this (List.sublist_append_right _ _)
+
+/-- **A user event is re-queued at most once per node**: for every buffer size, start state
+(fresh or restored from a snapshot) and every history of gossip deliveries and push/pull
+replays that does not carry the time 2^64−1. -/
+theorem C04_user_event_at_most_once_partial (N : Nat) (hN : 0 < N) (hN2 : N < 2 ^ 64) (c m : W)
+    (ins : List (In α)) (hnw : NoWrap ins) : (eventRequeues (Buf.start N c m) ins).Nodup :=
+  List.Nodup.sublist (eventRequeues_sublist ins _) (C05.C05_at_most_once_partial N hN hN2 c m ins hnw)
+
+/-- re-queued ⇔ delivered, for one gossip delivery -/
+theorem C04_user_event_requeue_iff (b : Buf α) (lt : W) (x : α) :
+    (lt, x) ∈ (if (handle b lt x).2 = .delivered then [(lt, x)] else []) ↔ (handle b lt x).2 = .delivered := by
+  by_cases h : (handle b lt x).2 = .delivered <;> simp [h]
+
+/-- **State-sync merges never re-queue user events.** -/
+theorem C04_pushpull_events_never_requeue (b : Buf α) (ins : List (In α))
+    (h : ∀ i ∈ ins, ∃ e raise image, i = .pushPull e raise image) : eventRequeues b ins = [] := by
+  induction ins generalizing b with
+  | nil => rfl
+  | cons i rest ih =>
+    obtain ⟨e, raise, image, rfl⟩ := h i (List.mem_cons_self ..)
+    simp only [eventRequeues]
+    exact ih _ (fun j hj => h j (List.mem_cons_of_mem _ hj))
+
+-- non-vacuity: a history with a duplicate, a replay that delivers, and a copy after the replay
+example : eventRequeues (α := Nat) (Buf.init 2) [.gossip 1#64 7, .gossip 1#64 7, .gossip 3#64 8,
+    .pushPull 9#64 false [some (1#64, [7, 9]), none, some (8#64, [7])], .gossip 8#64 7, .gossip 1#64 9]
+    = [(1#64, 7), (3#64, 8)] := by decide
+example : eventRequeues (α := Nat) (Buf.init 2)
+    [.pushPull 9#64 false [some (1#64, [7, 9])], .pushPull 3#64 true [some (2#64, [1])]] = [] :=
+  C04_pushpull_events_never_requeue _ _ (by
+    intro i hi
+    simp only [List.mem_cons, List.not_mem_nil, or_false] at hi
+    rcases hi with rfl | rfl <;> exact ⟨_, _, _, rfl⟩)
+
+/-- The full statement (without `NoWrap`) is false: C05's wrap witness is re-queued twice as well
+(buffer of 2: (1, 7) re-queued; (2^64−1, 8) wraps the event clock to 0 and evicts it; the copy of
+(1, 7) is delivered and re-queued again). -/
+theorem C04_user_event_at_most_once_counterexample :
+    ¬ (eventRequeues (α := Nat) (Buf.init 2)
+        [.gossip 1#64 7, .gossip (BitVec.allOnes 64) 8, .gossip 1#64 7]).Nodup := by decide
+
+end Events
+
+section Queries
+open SerfModel.Atomic SerfModel.EventBuf SerfModel.QueryHandle SerfProofs.EventBuf
+
+/-- **A query is re-queued at most once per node** (`handleQuery` returns true iff the query is
+first seen in the window and re-broadcast is not disabled — `C08_rebroadcast_iff`): for every
+buffer size, start state, node configuration, regex oracle and every history of query messages
+without the time 2^64−1, no (time, id) is re-broadcast twice.  Push/pull does not carry queries. -/
+theorem C04_query_at_most_once_partial (re : Oracle) (cfg : NodeCfg) (N : Nat) (hN : 0 < N)
+    (hN2 : N < 2 ^ 64) (c m : W) (qs : List QueryMsg) (hnw : NoWrap (C08.asIns qs)) :
+    (runQ re cfg (Buf.start N c m) qs).2.2.Nodup :=
+  (C08.C08_once_partial re cfg N hN hN2 c m qs hnw).2
+
+example : (runQ C08.exRe C08.exCfg (Buf.init 4) [C08.exQ1, C08.exQ1, C08.exQ2]).2.2 = [(5#64, 9)] := by decide
+
+end Queries
 
 end SerfProofs.C04
